@@ -8,3 +8,8 @@ require (
 	golang.org/x/mod v0.22.0 // indirect
 	golang.org/x/sync v0.10.0 // indirect
 )
+
+require (
+	github.com/yuin/goldmark v1.7.4
+	golang.org/x/net v0.34.0
+)
